@@ -104,7 +104,8 @@ def ordering_grammar(tier, prefix):
 
 def bound_text(tier):
     return ("P: %d ordering rulebooks x 2 vendors x all pairs of a %s-config universe; L: 192 corpus samples x every "
-            "unchanged top-level row; C: 14 vendors x forests <= %d nodes over <= 6 rows"
+            "unchanged top-level row; C: 14 vendors x forests <= %d nodes over <= 8 rows (plain and negated, mentioned and not); "
+            "G: 192 corpus samples x {--acl-safe} through annet.gen.worker end to end"
             % (len(ordering_grammar(tier, "undo")), "~40" if tier == "quick" else "~120", 4 if tier == "quick" else 5))
 
 
